@@ -45,7 +45,7 @@ LEVEL_TEXT = (
     "equality test or variant tests of both operands' types (no operand type is accepted unseen). "
     "Not decided: that unify / constrain_type / check_or_constrain_* compute the right relation on types (value level; the "
     "one structural slice of it, lossy casts before range checks, is C09-L1b), and combinations of two edits."
-    " Also decided since the hunter rounds: struct literals / patterns report duplicated fields and always look for missing ones (T13); the exhaustiveness check aligns struct pattern fields by name (T14); number patterns are compared with min() / max() and their suffix with the matched type (T15); duplicated struct fields / enum variants in definitions and self-containing types are rejected, the latter before any function body is checked (T16); declared const types are resolved and an external value has one type (T17); a second top-level definition of the same name is reported (T19).")
+    " Also decided since the hunter rounds: struct literals / patterns report duplicated fields and always look for missing ones (T13); the exhaustiveness check aligns struct pattern fields by name (T14); number patterns are compared with min() / max() and their suffix with the matched type (T15); duplicated struct fields / enum variants in definitions and self-containing types are rejected, the latter before any function body is checked (T16); declared const types are resolved and an external value has one type (T17); a second top-level definition of the same name is reported (T19). T15 also demands both sides for each bound of a range pattern; T20: the arity test compares a list with one entry per written argument; T21: literals and range bounds that stay untyped are compared with the 32-bit bounds before the function is accepted.")
 LEVEL_NOTE = ("Trusted: rustc MIR and callee resolution. The obligation table (T3) and the ownership table (T2) were filled by reading "
               "check.rs against the language documentation; they name checker functions by their last path segment.")
 EXPLANATION = ("Functions analysed: every body of check.rs (T1, T2), UntypedExpr/UntypedStmt/UntypedPattern::type_check pruned to one "
